@@ -11,9 +11,12 @@ import (
 
 // PDir is one directive read back from knut's own journal syntax.
 type PDir struct {
-	Date string
-	Kind string
-	Text string
+	Date   string
+	Kind   string
+	Text   string
+	Addons []string // annotation lines
+	Head   string   // the first line (a description may make it span lines)
+	Body   []string // booking / balance lines, fields joined by single blanks
 }
 
 var dateRx = regexp.MustCompile(`^\d{4}-\d{2}-\d{2}(\s|$)`)
@@ -36,7 +39,8 @@ func ParseKnut(s string) ([]PDir, error) {
 			return nil, fmt.Errorf("line %d: directive expected: %q", i+1, l)
 		}
 		f := strings.Fields(l)
-		d := PDir{Date: f[0]}
+		d := PDir{Date: f[0], Addons: addons}
+		nAddons := len(addons)
 		body := append(addons, l)
 		addons = nil
 		switch {
@@ -69,6 +73,8 @@ func ParseKnut(s string) ([]PDir, error) {
 			return nil, fmt.Errorf("line %d: unknown directive: %q", i+1, l)
 		}
 		d.Text = strings.Join(body, "\n")
+		d.Head = body[nAddons]
+		d.Body = body[nAddons+1:]
 		out = append(out, d)
 	}
 	return out, nil
@@ -260,6 +266,28 @@ func (c09) Gen(r *simrt.Rand, idx int, tier string) *Case {
 	if g.Prices != "" {
 		if cs := c.J.Commodities(); len(cs) > 1 {
 			c.Val = cs[r.Intn(len(cs))]
+		}
+		if idx%4 == 3 {
+			// several declarations for one pair on one day, either way round: the
+			// printed journal must keep whatever decides which of them counts
+			c.Sub = "roundtrip-price-conflict"
+			var prices []int
+			for i, d := range c.J.Dirs {
+				if d.Kind == "price" {
+					prices = append(prices, i)
+				}
+			}
+			for k := r.Range(1, 3); k > 0 && len(prices) > 0; k-- {
+				d := c.J.Dirs[prices[r.Intn(len(prices))]]
+				if r.P(0.6) {
+					// the other way round, with an inconsistent value
+					d.Com, d.Target = d.Target, d.Com
+					d.Price = Q(r.Range(1, 90000))
+				} else {
+					d.Price += Q(r.Range(1, 50000))
+				}
+				c.J.Dirs = append(c.J.Dirs, d)
+			}
 		}
 	}
 	c.L = RandLayout(r, c.J, 6)
